@@ -627,6 +627,8 @@ def malformation(fmt):
         return 'unbalanced-braces'
     if re.search(r'[0-9]\s*(\}|$)', re.sub(r':[^:]*:', '', fmt)):
         return 'dangling-repeat-count'
+    if re.search(r'\)\s*[0-9]*x', re.sub(r':[^:]*:', '', fmt)):
+        return 'array-shape-before-padding'
     return None
 
 
